@@ -25,6 +25,9 @@ CHECKS = {
  "C07": ("other", "call-graph SCC classification: depth-guard recognition (dominators), monotone-parameter recursion, block-only descent by EDPE, leaf self-calls from the pairing table; stack budget from compile-only -fstack-usage",
          "Decides the stack clause structurally: every recursive cycle reachable from the API is bounded by a guard against a constant (or confined to block-level nesting / flat input / a visited set) and bound x frame sizes fits a 2 MiB budget; plus R-CONSTTIME (append primitives are loop-free), a necessary condition of the linear-cost clause. Asymptotic cost itself is NOT decided (data-dependent loops).",
          "§3 C07"),
+ "C11": ("other", "AST census of every comparison / hash lookup against a stored metadata key; provenance check of the compared value (normaliser result, fixed-point literal, caller arguments)",
+         "Decides one necessary condition only (explicitly weak): keys are stored through label_from_string and every strcmp / HASH_FIND_STR against a stored key uses a value in the same normal form, and the API functions detect metadata before reading the stack. Offsets, value extraction, continuation joining and update splicing are data-dependent string arithmetic and are not decided.",
+         "§3 C11"),
  "C12": ("other", "enum-dispatch partial evaluation of accept_token / reject_token over every cm_types enumerator, mirror comparison under ADD<->DEL; loop-direction and writer agreement checks",
          "Decides two structural clauses: accept and reject implement mirror-image tables (so a one-sided edit breaks one of them), every editing loop walks back to front from the tail, and the three writers' inline accept/reject handling of PAIR_CRITIC_* agree with one another and mirror. Byte-exact results and idempotence are not decided.",
          "§3 C12"),
@@ -43,6 +46,9 @@ CHECKS = {
  "C16": ("other", "constant-table inspection (smart_char_type initialiser from the AST), cast check on every table lookup, whole-program absence of setlocale, interval analysis of the tolower argument in label_from_string",
          "Decides two necessary conditions only (explicitly weak): the byte classifier is neutral on every byte >= 0x80 and is always indexed as unsigned char; ctype functions run only in the C locale (no setlocale anywhere) and label_from_string case-maps only ASCII while copying lead+continuation bytes unclassified. The re2c scanners' treatment of 0xA0 and truncations at length limits are not decided.",
          "§3 C16"),
+ "C20": ("other", "EDPE of mmd_engine_export_token_tree over output_format (header/footer/body call order and guarding conditions), guard-condition census of every EXT_COMPLETE store, strcmp-chain extraction of the control-key set, call-graph cone check of metadata reads",
+         "Decides the structural clauses: the header call precedes and the footer follows the body and note lists under the same condition per format, EXT_COMPLETE is only set under !EXT_SNIPPET, the keys that do not force a complete document are exactly the rendering-control keys, the body exporters read metadata only in the variable-substitution branch, and BLOCK_META emits nothing. That the snippet appears byte-for-byte inside the complete output is not decided.",
+         "§3 C20"),
  "C17": ("other", "same inventory on the -DDISABLE_OBJECT_POOL configuration with an empty allow list",
          "Decides the 'no shared mutable state' clause for the pool-disabled build; does not decide byte equality across threads.",
          "§3 C17"),
